@@ -337,3 +337,53 @@ Proof.
   - apply span_sound. exact Sp.
   - apply Nat.eqb_eq. exact N.
 Qed.
+
+(* ------------------------------------------------------------------ fracture extents *)
+Definition ExtentsConf (ext : list (list (Q * Q) * list (Q * Q))) : Prop :=
+  forall e, In e ext ->
+    Forall2 (fun a b => QNear (fst a) (fst b) /\ QNear (snd a) (snd b)) (fst e) (snd e).
+
+Lemma conform_req2_sound : forall d r ext, conform_req2 d r ext = true ->
+  Conforming d /\ RequestConf r /\ ExtentsConf ext.
+Proof.
+  intros d r ext H. unfold conform_req2 in H. apply andb_true_iff in H. destruct H as [H1 H2].
+  destruct (conform_req_sound d r H1) as [A B]. split; [exact A|]. split; [exact B|].
+  intros e He. unfold extents_ok in H2. rewrite forallb_forall in H2.
+  apply span_sound. apply H2. exact He.
+Qed.
+
+(* ------------------------------------------------------------------ reduced sums *)
+Lemma qsum_r_eq : forall l, qsum_r l == qsum l.
+Proof.
+  induction l as [|x r IH]; [reflexivity|]. cbn [qsum_r qsum fold_right].
+  fold (qsum_r r). fold (qsum r). rewrite Qred_correct, IH. reflexivity.
+Qed.
+
+Lemma qnear_eq : forall x x' y, x == x' -> qnear x y = qnear x' y.
+Proof.
+  intros x x' y E. unfold qnear.
+  destruct (Qle_bool (Qabs (x - y)) (ctol * (1 + Qabs y))) eqn:A;
+    destruct (Qle_bool (Qabs (x' - y)) (ctol * (1 + Qabs y))) eqn:B; try reflexivity.
+  - apply Qle_bool_iff in A. rewrite E in A. apply Qle_bool_iff in A. congruence.
+  - apply Qle_bool_iff in B. rewrite <- E in B. apply Qle_bool_iff in B. congruence.
+Qed.
+
+Lemma conform_f_eq : forall d, conform_f d = conform d.
+Proof. intro d. unfold conform_f, conform. rewrite (qnear_eq _ _ _ (qsum_r_eq (md_vols d))). reflexivity. Qed.
+
+Lemma request_ok_f_eq : forall r, request_ok_f r = request_ok r.
+Proof.
+  intro r. unfold request_ok_f, request_ok. f_equal. f_equal.
+  induction (rq_meas r) as [|m l IH]; [reflexivity|]. cbn [forallb].
+  rewrite IH, (qnear_eq _ _ _ (qsum_r_eq (fst m))). reflexivity.
+Qed.
+
+Lemma conform_req3_eq : forall d r ext, conform_req3 d r ext = conform_req2 d r ext.
+Proof.
+  intros d r ext. unfold conform_req3, conform_req2, conform_req.
+  rewrite conform_f_eq, request_ok_f_eq. reflexivity.
+Qed.
+
+Lemma conform_req3_sound : forall d r ext, conform_req3 d r ext = true ->
+  Conforming d /\ RequestConf r /\ ExtentsConf ext.
+Proof. intros d r ext H. rewrite conform_req3_eq in H. apply conform_req2_sound. exact H. Qed.
